@@ -1,7 +1,7 @@
 (* C04 — Failed or faulted operations are atomic: no leak, no residue, context reusable (protocol level). *)
 From Coq Require Import ZArith List Bool Lia.
 Import ListNotations.
-From LX Require Import Model.Cleanup Proofs.CleanupProofs.
+From LX Require Import Model.Cleanup Proofs.CleanupProofs Proofs.CleanupSeqProofs.
 Local Open Scope Z_scope.
 
 (* For each of the eight load / test entry points and xmp_start_player, for EVERY combination of stage failures (an empty memory buffer, stream
@@ -29,6 +29,34 @@ Proof.
 Qed.
 Print Assumptions no_stream_or_temp_left.
 
+(* Every reachable context.  For any history of entry-point calls (load / test through any of the four back-ends, player
+   start), each with any combination of faults, from any consistent context: the context is consistent again, holds no
+   stream and no temporary file, the caller's FILE is as it was, and the caller's close callback has been invoked exactly
+   once per callback stream the library accepted (induction over the history). *)
+Theorem any_call_history_leaves_no_residue : forall cs w, consistent w = true ->
+  consistent (run_seq w cs) = true /\ handles (run_seq w cs) = 0 /\ temps (run_seq w cs) = 0 /\
+  caller_file_open (run_seq w cs) = caller_file_open w /\
+  cb_closes (run_seq w cs) = cb_closes w + cb_total cs.
+Proof.
+  intros cs w Hw. destruct (history_inv cs w Hw) as (H1 & H2 & H3). destruct (consistent_handles _ H1) as [Hh Ht]. auto.
+Qed.
+Print Assumptions any_call_history_leaves_no_residue.
+
+(* ... and the context is reusable: after any such history a fault-free load through any back-end returns 0 and leaves the
+   context loaded, and a fault-free player start after it returns 0 and leaves it playing. *)
+Theorem context_reusable_after_any_history : forall cs w e, consistent w = true -> is_load e = true ->
+  let w' := run_seq w cs in
+  fst (run e no_faults w') = 0 /\ st (snd (run e no_faults w')) = Loaded /\
+  fst (run Start no_faults (snd (run e no_faults w'))) = 0 /\ st (snd (run Start no_faults (snd (run e no_faults w')))) = Playing.
+Proof. exact history_reusable. Qed.
+Print Assumptions context_reusable_after_any_history.
+
+(* a test entry point, failing or not, leaves the context's state and what it owns exactly as they were *)
+Theorem testing_never_touches_the_context : forall e f w, consistent w = true -> is_load e = false -> e <> Start ->
+  st (snd (run e f w)) = st w /\ mod_live (snd (run e f w)) = mod_live w /\ player_live (snd (run e f w)) = player_live w.
+Proof. exact failed_test_keeps_state. Qed.
+Print Assumptions testing_never_touches_the_context.
+
 (* non-vacuity: a playing context, load by path, the loader gives up: the old module is gone, nothing is left behind *)
 Example c04_nonvacuous :
   let w := mk_world (Playing, true, true) true in
@@ -36,4 +64,16 @@ Example c04_nonvacuous :
   consistent w = true /\ run LoadPath f w = (E_LOAD, mk_world (Unloaded, false, false) true) /\
   fst (run Start {| f_empty := false; f_open := false; f_depack := false; f_names := false; f_format := false; f_loader := false; f_prepare := false; f_scan := false; f_player := true |} w) = E_INTERNAL /\
   length all_faults = 512%nat.
+Proof. vm_compute. repeat split; reflexivity. Qed.
+
+(* non-vacuity of the history theorems: a four-call history with three faulted calls (callback stream whose loader gives
+   up, archive that will not unpack, player allocation failing) - one close callback due, context left loaded *)
+Example c04_history_nonvacuous :
+  let lf := {| f_empty := false; f_open := false; f_depack := false; f_names := false; f_format := false; f_loader := true; f_prepare := false; f_scan := false; f_player := false |} in
+  let df := {| f_empty := false; f_open := false; f_depack := true; f_names := false; f_format := false; f_loader := false; f_prepare := false; f_scan := false; f_player := false |} in
+  let pf := {| f_empty := false; f_open := false; f_depack := false; f_names := false; f_format := false; f_loader := false; f_prepare := false; f_scan := false; f_player := true |} in
+  let cs := [(LoadCb, lf); (LoadMem, no_faults); (TestPath, df); (Start, pf)] in
+  let w := mk_world (Unloaded, false, false) true in
+  consistent w = true /\ run_seq w cs = {| st := Loaded; mod_live := true; player_live := false; handles := 0; temps := 0; caller_file_open := true; cb_closes := 1 |} /\
+  cb_total cs = 1.
 Proof. vm_compute. repeat split; reflexivity. Qed.
